@@ -121,12 +121,23 @@ def opusInfo (f : Bytes) : Except PyErr (Nat × Nat) :=
       else if (pk.getD 8 0).toNat / 16 ≠ 0 then .error .mutagen
       else .ok (r.page.serial, next)
 
+/-- Vorbis and Theora `_inject`: the first page whose first packet starts with the identification
+magic gives the serial number (the stream the tags were loaded from); from that page on — it is
+tested itself first, the file is not rewound — the first page of that serial whose first packet
+starts with the comment magic -/
+def idThenComment (f idMagic commentMagic : Bytes) : Except PyErr (Rd × Nat) :=
+  match scanFrom f (startsWith idMagic) (f.length + 1) 0 with
+  | .error e => .error e
+  | .ok (r, pos) =>
+    let isComment := fun (p : Page) => decide (p.serial = r.page.serial) && startsWith commentMagic p
+    if isComment r.page then .ok (r, pos) else scanFrom f isComment (f.length + 1) pos
+
 /-- where the codec's `_inject` finds the first page of its comment packet: that page (with its
 offset) and the position behind it -/
 def findStart (c : Codec) (f : Bytes) : Except PyErr (Rd × Nat) :=
   match c with
-  | .vorbis => scanFrom f (startsWith magicVorbisComment) (f.length + 1) 0
-  | .theora => scanFrom f (startsWith magicTheoraComment) (f.length + 1) 0
+  | .vorbis => idThenComment f magicVorbisId magicVorbisComment
+  | .theora => idThenComment f magicTheoraId magicTheoraComment
   | .opus =>
     match opusInfo f with
     | .error e => .error e
